@@ -634,6 +634,9 @@ func (c *Collection) Within(
 				return false, true
 			}
 			nextStep(count, cursor, deadline)
+			// a candidate that fails the exact test is skipped, it does not
+			// end the search
+			ok = true
 			if match = o.Geo().Within(obj); match {
 				ok = iter(o)
 			}
@@ -675,6 +678,9 @@ func (c *Collection) Intersects(
 				return false, true
 			}
 			nextStep(count, cursor, deadline)
+			// a candidate that fails the exact test is skipped, it does not
+			// end the search
+			ok = true
 			if match = o.Geo().Intersects(gobj); match {
 				ok = iter(o)
 			}
